@@ -164,6 +164,13 @@ def module_const(f, path):
                 return mk("agg", ("adt", "TwoFloat", 0, "TwoFloat"), (mk("const", "f64", w[0]), mk("const", "f64", w[1])))
     return None
 
+def namesakes(f, b):
+    """the methods of the same name in the crate's other num_traits impls for TwoFloat (Float / FloatCore / Signed / ...): an
+    entry point may forward to a namesake instead of repeating its body, so they are read in place"""
+    me = b.ident()
+    return tuple(sorted(i for i, l in f.by_ident.items() if len(l) == 1 and i != me and l[0].name == b.name and l[0].self_ty == TF
+                        and l[0].trait and l[0].trait.startswith("num_traits") and l[0].kind != "Closure"))
+
 def check_delegation_subset(rep, f, names, rule="R16s"):
     """the num_traits Float / FloatCore / Signed entry points named in `names` return exactly their
     inherent counterpart (shared with C10's R16; used by the properties that own those functions)"""
@@ -180,8 +187,7 @@ def check_delegation_subset(rep, f, names, rule="R16s"):
             continue
         inst = "%s::%s" % (tr, b.name)
         try:
-            twin = "<TwoFloat as num_traits::%s>::%s" % ("float::FloatCore" if tr == "Float" else "Float", b.name) if tr in ("Float", "FloatCore") else None
-            t = H.tree_of(f, b, "op", inline_private=False, inline_extra=((twin,) if twin and f.get(twin) is not None else ()))
+            t = H.tree_of(f, b, "op", inline_private=False, inline_extra=namesakes(f, b))
         except vg.Unsupported as u:
             rep.fail(rule, inst, "unsupported:" + inst, "cannot evaluate %s: %s" % (inst, u), where=H.where(b)); continue
         exp = mk("call", inh, *[P(i) for i in range(b.mir["arg_count"])])
@@ -210,8 +216,7 @@ def check_delegation(rep, f):
         inst = "%s::%s" % (tr, name)
         try:
             # (a Float method may forward to its FloatCore twin or the reverse: the twin is read in place)
-            twin = "<TwoFloat as num_traits::%s>::%s" % ("float::FloatCore" if tr == "Float" else "Float", name) if tr in ("Float", "FloatCore") else None
-            t = H.tree_of(f, b, "op", inline_extra=("<TwoFloat as core::default::Default>::default",) + ((twin,) if twin and f.get(twin) is not None else ()))
+            t = H.tree_of(f, b, "op", inline_extra=("<TwoFloat as core::default::Default>::default",) + namesakes(f, b))
         except vg.Unsupported as u:
             rep.fail("R16", inst, "unsupported:" + inst, "cannot evaluate %s: %s" % (inst, u), where=H.where(b)); continue
         if tr in ("Float", "FloatCore"):
